@@ -150,6 +150,14 @@ MUTANTS["r06_revert_F6"] = (["C12"], [
     (CTX, '&format!("{}_BINARY_SEARCH", self.lexer_name),', '"binary_search",'),
     ("crates/lexgen/src/dfa/codegen/search_table.rs", '&format!("{}_RANGE_TABLE_{}", lexer_name, n_tables),', '&format!("RANGE_TABLE_{}", n_tables),'),
 ], "reverts fix commit 4636f65 (search table and helper names without the lexer prefix)")
+MUTANTS["m45_add_dfa_predecessors_not_shifted"] = (["C03"], [(DFA, ".map(|pred| StateIdx(pred.0 + n_current_states))", ".map(|pred| StateIdx(pred.0))")],
+    "predecessor sets of an appended rule set keep their local indices (wrong inlining decisions for later rule sets)")
+MUTANTS["m46_add_dfa_eoi_shift_off_by_one"] = (["C03", "C05"], [(DFA, "new_end_of_input_transition = Some(StateIdx(next.0 + n_current_states));", "new_end_of_input_transition = Some(StateIdx(next.0 + n_current_states - 1));")],
+    "end-of-input successors of an appended rule set are shifted by one less than everything else")
+MUTANTS["m47_simplify_removes_initial"] = (["C03"], [(SIMP, "if state.has_no_transitions() && !state.initial {", "if state.has_no_transitions() {")],
+    "simplify removes the initial state of an empty rule set too")
+MUTANTS["m48_inline_any_narrower"] = (["C01", "C03"], [(CG, "            if states[*next_state].predecessors.len() == 1 {\n                generate_state(ctx, *next_state, &states[*next_state], states)", "            if states[*next_state].predecessors.len() == 1 && states[*next_state].accepting.is_empty() {\n                generate_state(ctx, *next_state, &states[*next_state], states)")],
+    "the `_` successor is inlined under a narrower condition than the one that omits its arm")
 REVERTS = {
     "r01_revert_F1": ("1a68785", ["C01", "C12"]),
     "r02_revert_F2": ("551ccb8", ["C04", "C12"]),
@@ -242,6 +250,18 @@ BENIGN = {
                                         "iterator constructors may store any string constant in `input` (read only by match_, documented unavailable)"),
     "b11_or_operands_swapped": ([(AST, "        re = Regex::Or(Box::new(re), Box::new(re2)); // left associative", "        re = Regex::Or(Box::new(re2), Box::new(re)); // left associative")],
                                 "alternation is commutative: same language"),
+    "b12_simplify_partition_point": ([(SIMP, """        let idx = match empty_states.binary_search_by(|(state_idx, _)| state_idx.cmp(t)) {
+            Ok(idx) | Err(idx) => idx,
+        };""", """        let idx = empty_states.partition_point(|(state_idx, _)| *state_idx < *t);""")],
+                                     "partition_point instead of binary_search_by for the entry renumbering (same index)"),
+    "b13_add_dfa_offset_alias": ([(DFA, "new_any_transition = Some(StateIdx(next.0 + n_current_states));", "let offset = n_current_states;\n                new_any_transition = Some(StateIdx(next.0 + offset));")],
+                                 "a local alias for the offset in add_dfa"),
+    "b14_inline_test_helper": ([
+        (CG, "            if states[*next_state].predecessors.len() == 1 {\n                generate_state(ctx, *next_state, &states[*next_state], states)", "            if single_pred(&states[*next_state]) {\n                generate_state(ctx, *next_state, &states[*next_state], states)"),
+        (CG, "        let next = if states[*next_state].predecessors.len() == 1 {", "        let next = if single_pred(&states[*next_state]) {"),
+        (CG, "        let next = if states[next_state].predecessors.len() == 1 {", "        let next = if single_pred(&states[next_state]) {"),
+        (CG, "fn generate_any_transition(", "fn single_pred(state: &State<Trans<SemanticActionIdx>, SemanticActionIdx>) -> bool {\n    state.predecessors.len() == 1\n}\n\nfn generate_any_transition("),
+    ], "the inlining test moved into a helper used by the three transition generators"),
     "b08_eoi_action_block": ([(CG, "        self.0.__done = true; // don't handle end-of-input again\n        #end_of_input_action", "        self.0.__done = true;\n        { #end_of_input_action }")], "extra block around the end-of-input action"),
     "b09_generator_match_style": ([(GEN, """        } else if let Some(range) = current_range.take() {
             ranges.push(range);
